@@ -1,8 +1,8 @@
 import Netpoll.ShardInv.Good
 /-!
 A variant for the ShardQueue model: a lexicographic measure `(mA, mB, mC)` that strictly decreases on
-every step of an adder, the loop worker or a tail worker (in reachable states).  Closers do not change
-it, and decrease their own measure `mD` whenever `trigger = 0`.
+every step of an adder, the loop worker or a tail worker (in reachable states).  Close calls do not change
+it, and decrease their own measure (`cCas`, `cRem`) whenever the queue is drained (all shards empty, `trigger = 0`).
 * `mA` – remaining steps of all Add calls;
 * `mB` – number of worker spawns that tail workers can still perform while no adder moves
   (a worker leaves its loop only after seeing `trigger ≤ 0`, so with adders frozen its exit check fails);
@@ -13,7 +13,7 @@ namespace Netpoll.Shard
 
 def APc.rem : APc → Nat
   | .state => 12 | .idx => 11 | .lock => 10 | .append => 9 | .unlock => 8 | .lLock => 7 | .lWrite => 6
-  | .lUnlock => 5 | .trig => 4 | .run => 3 | .spawn => 2 | .done => 0 | .panicked => 0
+  | .lUnlock => 5 | .trig => 4 | .run => 3 | .spawn => 2 | .done => 0
 
 def aRem (a : Adder) : Nat := a.pc.rem
 
@@ -30,9 +30,22 @@ def gLen (s : S) : Nat :=
   tally List.length s.getters + (if s.wpc = .unlock ∨ s.wpc = .dealCall then s.swap.length else 0) + s.work.length
 
 def mC (s : S) : Nat :=
-  8 * s.ring.length + gLen s + s.wpc.pos + 3 * s.tRecheck + 2 * s.tRun + s.tSpawn + s.tCas
+  8 * s.ring.length + gLen s + s.wpc.pos + 3 * s.tRecheck + 2 * s.tRun + s.tSpawn
 
-def mD (s : S) : Nat := 4 * s.cCas + 3 * s.cState + 2 * s.cTrig + s.cStore
+/-- steps the Close call that won the CAS still has to take if every shard it looks at is empty and `trigger = 0`
+    (a `drained` that has seen a non-empty shard starts over after its unlock) -/
+def cRem (s : S) : Nat :=
+  match s.cwin with
+  | none => 0
+  | some .cas => 0
+  | some .store => 1
+  | some .trig => 2
+  | some .unlock => if s.cN = 0 then 3 * (s.size - s.cShard) else 3 * s.size + 3
+  | some .read => 3 * (s.size - s.cShard) + 1
+  | some .lock => 3 * (s.size - s.cShard) + 2
+
+/-- lexicographic order on (Close calls before their CAS, remaining steps of the winner) -/
+def cLt (s' s : S) : Prop := s'.cCas < s.cCas ∨ (s'.cCas = s.cCas ∧ cRem s' < cRem s)
 
 /-- lexicographic order on the measure -/
 def mLt (s' s : S) : Prop :=
@@ -63,14 +76,27 @@ theorem variant_tail (s s' : S) (pc : TPc) (hs : stepTail s pc = some s') :
   cases pc <;> simp only [stepTail] at hs <;> (repeat' split at hs) <;> (try cases hs) <;>
     simp only [mA, mB, mC, gLen, spawnWorker, WPc.pos] at * <;> grind [WPc.pos]
 
-theorem variant_closer (s s' : S) (pc : CPc) (hs : stepCloser s pc = some s') :
-    mA s' = mA s ∧ mB s' = mB s ∧ mC s' = mC s ∧ (s.trigger = 0 → mD s' < mD s) := by
+theorem variant_closer (s s' : S) (pc : CPc) (hS : GStruct s) (hs : stepCloser s pc = some s') :
+    mA s' = mA s ∧ mB s' = mB s ∧ mC s' = mC s ∧
+    ((s.trigger = 0 ∧ ∀ (sh : Nat) (g : List Nat), s.getters[sh]? = some g → g = []) → cLt s' s) := by
+  have s3 := hS.s3
   cases pc <;> simp only [stepCloser] at hs <;> (repeat' split at hs) <;> (try cases hs) <;>
-    simp only [mA, mB, mC, mD, gLen] at * <;> grind
+    refine ⟨?_, ?_, ?_, ?_⟩ <;> (try (intro hd; obtain ⟨hd1, hd2⟩ := hd; have hd3 := hd2 s.cShard)) <;>
+    simp only [mA, mB, mC, cLt, cRem, gLen, enterDrained] at * <;> grind
 
 end Netpoll.Shard
 
 namespace Netpoll.Shard
+
+theorem cLt_wf : WellFounded cLt := by
+  have h : WellFounded (InvImage (Prod.Lex (· < ·) (· < ·)) (fun s : S => (s.cCas, cRem s))) :=
+    InvImage.wf _ (Prod.lex Nat.lt_wfRel Nat.lt_wfRel).wf
+  apply Subrelation.wf _ h
+  intro s' s hlt
+  show Prod.Lex _ _ (s'.cCas, cRem s') (s.cCas, cRem s)
+  rcases hlt with h1 | ⟨h1, h2⟩
+  · exact Prod.Lex.left _ _ h1
+  · rw [h1]; exact Prod.Lex.right _ h2
 
 theorem mLt_wf : WellFounded mLt := by
   have h : WellFounded (InvImage (Prod.Lex (· < ·) (Prod.Lex (· < ·) (· < ·)))
